@@ -48,7 +48,7 @@ class RandomTree:
         self.hdr = hdr
         self.next_id = 1
         self.rev = {}       # (txhash, idx) -> abstract (txid, idx)
-        self.ts = {0: 10}
+        self.ts = {0: world.by_abs[0].header.summary.timestamp}
         self.height = {0: 0}
         self.stored = [0]
         g = world.by_abs[0]
